@@ -87,12 +87,26 @@ def run_case(job):
                     return {"viol": [], "n": 0, "keys": [], "traces": 0}
                 sim.add_pressureLoad(nodes, 1.0)
             elif c["kind"] == "point":
-                sim.add_neumann(nodes, [5.0, -2.0, 0.0][: len(unk)] if phys == "elastic" else [5.0], unk)
+                if c["form"] == "array":
+                    # the total given as nodal arrays, the SAME array object for the first two unknowns, entered twice with a
+                    # Bc_Init() in between (load stepping): the input is not the library's to modify
+                    f = np.full(len(nodes), 5.0)
+                    g_ = np.full(len(nodes), -2.0)
+                    pv = ([f, f, g_][: len(unk)] if phys == "elastic" else [f])
+                    sim.add_neumann(nodes, pv, unk)
+                    sim.Bc_Init()
+                    sim.add_neumann(nodes, pv, unk)
+                    if not (np.all(f == 5.0) and np.all(g_ == -2.0)):
+                        viol.append((f"input-modified/{key}", f"{key}: the nodal array given to add_neumann was modified in place (now {f[:3]}...)", {"case": case, "elem": elem}))
+                else:
+                    sim.add_neumann(nodes, [5.0, -2.0, 0.0][: len(unk)] if phys == "elastic" else [5.0], unk)
         F = sim.Bc_vector_Neumann().reshape(mesh.Nn, -1)
         R = F.sum(0)
         exp = np.array([f2(q) for q in case["resultant"]])[: len(unk)]
         if c["kind"] == "point" and phys == "elastic" and dim == 3:
             exp = np.array([5.0, -2.0, 0.0])
+        if c["kind"] == "point" and c["form"] == "array":
+            exp = np.array([5.0, 5.0, -2.0][: len(unk)]) if phys == "elastic" else np.array([5.0])
         sc = max(np.abs(exp).max(), 1.0)
         if c["kind"] == "pressure":
             # magnitude pressure x area (x thickness), directed along the face normal (sign convention of the library aside)
